@@ -1216,7 +1216,7 @@ def labels(C) -> None:
         v = M.resolve(ev.value)
         if ev.n is not None and (_is_name(v, ev.n) or (isinstance(v, ast.Call) and isinstance(v.func, ast.Name) and v.func.id == "str" and len(v.args) == 1 and _is_name(v.args[0], ev.n))):
             ev.kind = "default"
-        elif has_recursive_call(C, v):
+        elif has_recursive_call(C, v, ev.n):
             ev.kind = "inductive"  # the label function calls itself (rules/c17_inductive.py)
         elif mentions_alias(M, v) or _uses_selection(M, v):
             ev.kind = "aliased"
@@ -1693,7 +1693,10 @@ def _judge_selection(C, ev: Event, sel: Selection, label_names: set[str], has_se
             out.append(("ok", r2, what_o, "the module's ancestors are walked from the module itself upwards" if disc == "first" else "the nearest aliased ancestor is selected", sel.where))
             out.append(("ok", r2, what_f, "the nearest ancestor that has an alias is used", ev.node))
         elif wrong:
-            out.append(("bad", r2, what_o, f"the module's ancestors are tried root first (`{norm(sel.D, 70)}`) and {'the first' if disc == 'first' else 'the last'} one with an alias is used: a parent's alias wins over a sub module's alias", sel.where))
+            if disc == "last" and order == "near":
+                out.append(("bad", r2, what_f, f"the module's ancestors are walked from the module itself upwards (`{norm(sel.D, 70)}`) but the walk does not stop at the first one with an alias - the last, root-most one is used: a parent's alias wins over a sub module's alias", sel.where))
+            else:
+                out.append(("bad", r2, what_o, f"the module's ancestors are tried root first (`{norm(sel.D, 70)}`) and {'the first' if disc == 'first' else 'the last'} one with an alias is used: a parent's alias wins over a sub module's alias", sel.where))
         else:
             out.append(("unsure", r2, what_o, f"order of the ancestors `{norm(sel.D, 80)}` not recognised", sel.where))
     return out
